@@ -30,7 +30,8 @@ class Lemma:
 
 
 class Loop:
-    def __init__(self, invariant=(), ghost_pre=(), ghost_post=(), decreases=None, counter=None):
+    def __init__(self, invariant=(), ghost_pre=(), ghost_post=(), decreases=None, counter=None, witness=None):
+        self.witness = dict(witness or {})   # invariant text -> {bound var: witness expression}
         self.invariant = list(invariant)
         self.ghost_pre = list(ghost_pre)    # ghost statements at the start of the body
         self.ghost_post = list(ghost_post)  # ghost statements at the end of the body (before invariant check)
@@ -44,7 +45,8 @@ class Contract:
                  uses=(), exits=(), result_name="result", notes="", prop_clauses=None, yields=None,
                  free=None, assumes=(), skip_body=False, replay=None, self_fields=None, abstract_ok=(),
                  entry_ghost=(), exit_ghost=(), consts=None, witness=None, defaults=None,
-                 tags=None, global_ghosts=(), result_fn=None, options=None):
+                 tags=None, global_ghosts=(), result_fn=None, options=None,
+                 quiet_requires=()):
         self.target = target              # "mokapot.utils.create_chunks" or "mokapot.model.Model.fit"
         self.params = dict(params or {})  # name -> type string (in signature order)
         self.requires = list(requires)
@@ -75,6 +77,9 @@ class Contract:
         self.prop_clauses = prop_clauses
         self.result_fn = result_fn   # name of a global ghost F: callers may assume result == F(immutable args)
                                       # (sound for a deterministic function; F is otherwise unconstrained)
+        # preconditions that are checked at call sites like any other, but are NOT put into the body's VCs as
+        # quantified hypotheses (they would fire everywhere); the body gets them through lemma calls only
+        self.quiet_requires = list(quiet_requires)
         self.options = dict(options or {})   # engine options (e.g. join_congruence: ground congruence facts for str.join)
         self.global_ghosts = list(global_ghosts)  # spec functions shared between caller and callee (same UF by name)
         self.witness = dict(witness or {})   # ensures text -> {bound var: witness expression} (proof hint)
